@@ -55,33 +55,55 @@ CM = 'FIFOWeightedSemaphoreContextManager'
 VAL = 'self.value'
 Q = 'self.queue'
 
-FIFO_OK = {'method:append', 'index:0', 'method:popleft', 'truth', 'len'}
+FIFO_OK = {'method:append', 'index:0', 'method:popleft', 'truth', 'len', 'contains'}
 FIFO_BAD = {'method:appendleft': 'enqueues at the head', 'method:pop': 'removes the newest waiter', 'method:insert': 'enqueues out of order',
-            'method:rotate': 'reorders waiters', 'method:reverse': 'reorders waiters', 'method:remove': 'removes a waiter out of order',
+            'method:rotate': 'reorders waiters', 'method:reverse': 'reorders waiters',
             'method:extendleft': 'enqueues at the head', 'method:clear': 'drops waiters without waking them', 'method:sort': 'reorders waiters'}
 
 
-def _removes_own_entry_on_cancel(m: pf.Module, cls: ast.ClassDef, call: ast.AST) -> bool:
-    """`self.queue.remove(<the tuple this call of acquire appended>)` inside an except / finally block of the try around acquire's own wait."""
+_FRESH_CTORS = ('Event', 'Future', 'create_future', 'Condition', 'Lock', 'object')
+
+
+def _entry_expr(fn: pf.FuncDef, e: ast.AST) -> ast.AST:
+    """The queue element an expression denotes: a single-definition local is followed to its defining expression."""
+    return pf.resolve_expr(fn, e) if isinstance(e, ast.Name) else e
+
+
+def _own_entry(m: pf.Module, call: ast.AST) -> Tuple[str, str]:
+    """`self.queue.remove(X)`: is X provably the entry that THIS invocation appended?  ('own', '') | ('other', why) | ('unknown', why).
+    Own = the function appends exactly one element, X denotes the same expression (locals followed to their single definition), none of its
+    names is rebound, one component is an object created by this invocation (so equality identifies exactly this entry) and the append
+    dominates the removal."""
     fn = m.enclosing_func(call)
-    if fn is None or fn.name != 'acquire' or not isinstance(call, ast.Call) or len(call.args) != 1:
-        return False
+    if fn is None or not isinstance(call, ast.Call) or len(call.args) != 1 or call.keywords:
+        return 'unknown', 'not a one-argument call inside a method'
     apps = [c for c in pf.calls_in(fn) if pf.dotted(c.func) == f'{Q}.append' and len(c.args) == 1]
-    if len(apps) != 1 or pf.nsrc(apps[0].args[0]) != pf.nsrc(call.args[0]):
-        return False
-    names = pf.names_in(call.args[0])
-    if any(len(pf.assignments(fn).get(nm, [])) != 1 for nm in names):
-        return False
-    par = m.parents()
-    cur: ast.AST = call
-    while cur is not fn:
-        p = par.get(cur)
-        if p is None:
-            return False
-        if isinstance(p, ast.Try) and (any(cur is h for h in p.handlers) or any(cur is s_ for s_ in p.finalbody)):
-            return any(isinstance(x, ast.Await) for s_ in p.body for x in ast.walk(s_))
-        cur = p
-    return False
+    if not apps:
+        return 'other', f'{fn.name} enqueues nothing itself, so the removed element is somebody else\'s entry'
+    if len(apps) != 1:
+        return 'unknown', f'{fn.name} enqueues at {len(apps)} places'
+    a, r = _entry_expr(fn, apps[0].args[0]), _entry_expr(fn, call.args[0])
+    if pf.nsrc(a) != pf.nsrc(r):
+        return 'other', f'it removes `{pf.nsrc(call.args[0])}`, which is not the element this call enqueued (`{pf.nsrc(apps[0].args[0])}`)'
+    names = pf.names_in(a) | pf.names_in(apps[0].args[0]) | pf.names_in(call.args[0])
+    asg = pf.assignments(fn)
+    multi = sorted(nm for nm in names if nm in asg and len(asg[nm]) != 1)
+    if multi:
+        return 'unknown', f'`{multi[0]}` is assigned more than once in {fn.name}'
+    comps = a.elts if isinstance(a, ast.Tuple) else [a]
+    fresh = False
+    for c in comps:
+        d = pf.single_def(fn, c.id) if isinstance(c, ast.Name) else c
+        if isinstance(d, ast.Call) and (pf.dotted(d.func) or '').split('.')[-1] in _FRESH_CTORS:
+            fresh = True
+    if not fresh:
+        return 'unknown', f'no component of `{pf.nsrc(a)}` is an object created by this call: equality may match another waiter\'s entry'
+    cfg = pf.cfg(fn)
+    A = [n for n in cfg.nodes if n.ast is not None and any(c is apps[0] for c in pf.node_calls(n))]
+    R = [n for n in cfg.nodes if n.ast is not None and any(c is call for c in pf.node_calls(n))]
+    if len(A) != 1 or not R or not all(cfg.dominated_by(x, lambda n: n is A[0]) for x in R):
+        return 'unknown', 'the removal is not dominated by the enqueue'
+    return 'own', ''
 
 
 def _r2_fifo(ctx: Ctx, m: pf.Module, cls: ast.ClassDef) -> None:
@@ -99,9 +121,13 @@ def _r2_fifo(ctx: Ctx, m: pf.Module, cls: ast.ClassDef) -> None:
             ctx.ok('R2', cons, 'empty deque')
         elif u.kind in FIFO_OK:
             ctx.ok('R2', cons, u.kind)
-        elif u.kind == 'method:remove' and _removes_own_entry_on_cancel(m, cls, u.node):
-            # a cancelled waiter taking ITS OWN entry out keeps the relative order of everybody else (whether the handler is complete is R5's concern, which then declines)
-            ctx.ok('R2', cons, 'own entry removed in the cancellation handler of the wait')
+        elif u.kind == 'method:remove':
+            # a waiter taking ITS OWN entry out (cancellation, abandon, timeout) keeps the relative order of everybody else: FIFO concerns the order in which the
+            # REMAINING waiters are granted.  Whether the new head is then served is R6's concern.
+            verdict, why = _own_entry(m, u.node)
+            ctx.need(verdict != 'unknown', f'{cons}: cannot decide whose entry is removed ({why})')
+            ctx.check(verdict == 'own', 'R2', cons, f'`{u.detail}` can remove ANOTHER waiter\'s entry: {why}; that waiter is overtaken by everybody behind it (and never woken): '
+                      'waiters are no longer granted in arrival order', m.path, line, detail='own entry removed: the order of the remaining waiters is unchanged')
         elif u.kind in FIFO_BAD:
             ctx.bad('R2', cons, f'`{u.detail}` {FIFO_BAD[u.kind]}: waiters are no longer granted in arrival order', m.path, line)
         elif u.kind.startswith('index:') or u.kind.startswith('setitem:') or u.kind.startswith('delitem:'):
@@ -111,20 +137,215 @@ def _r2_fifo(ctx: Ctx, m: pf.Module, cls: ast.ClassDef) -> None:
             raise AnalysisError(f'{cons}: unrecognised use of the waiter queue ({u.kind})')
 
 
-def _acquire(ctx: Ctx, m: pf.Module, cls: ast.ClassDef, guards: List[af.Guarded]) -> Optional[List[str]]:
-    """R2 fast path requires empty queue, R3 exact fast-path condition and slow path.  Returns the appended tuple layout."""
+class _Hole:
+    """A removal that leaves the new head unserved but is reached only when a queued wait is cancelled: decided together with R5 (can a queued wait be cancelled on its own?)."""
+
+    def __init__(self, cons: str, msg: str, path: str, line: int):
+        self.cons, self.msg, self.path, self.line = cons, msg, path, line
+        self.reported = False
+
+
+_R6_HISTORY = ('History with capacity 4000: J1(2000) runs; J2(3000) waits at the head, J3(2000) behind it; J2 leaves the queue; J3 is now the oldest waiter and 2000 are free, '
+               'but nobody sets its event: it stays blocked until some unrelated job releases, and every newcomer queues up behind it (liveness)')
+
+
+def _r6_liveness(ctx: Ctx, m: pf.Module, cls: ast.ClassDef) -> List[_Hole]:
+    """Head invariant: whenever other coroutines can run (a suspension point, or after a method returned) a non-empty queue has a head that does NOT fit.
+    release's wake loop establishes it; enqueueing at the tail preserves it; it is disturbed by (a) an increase of the counter and (b) any removal from the
+    queue (the head may change).  After a disturbance the wake loop must run before the next suspension point / return, otherwise the (new) head may fit and stay blocked."""
+    methods = [st for st in cls.body if isinstance(st, (ast.FunctionDef, ast.AsyncFunctionDef))]
+    by_name = {f.name: f for f in methods}
+    recv = {f.name: (f.args.args[0].arg if f.args.args else 'self') for f in methods}
+    loops: Dict[str, af.WakeLoop] = {}
+    for f in methods:
+        if isinstance(f, ast.FunctionDef):
+            try:
+                loops[f.name] = af.wake_loop(m, cls, f.name, VAL, Q)
+            except AnalysisError:
+                continue
+    ctx.need(loops, f'{F}::{CLS}: no method with a recognised wake loop over {Q}')
+
+    def self_calls(n: pf.Node, fname: str) -> List[Tuple[str, ast.Call, bool]]:
+        """(method name, call, awaited?) for calls `self.g(...)` evaluated at this node."""
+        out = []
+        par = m.parents()
+        for c in pf.node_calls(n):
+            if isinstance(c.func, ast.Attribute) and isinstance(c.func.value, ast.Name) and c.func.value.id == recv[fname] and c.func.attr in by_name:
+                out.append((c.func.attr, c, isinstance(par.get(c), ast.Await)))
+        return out
+
+    def normal(a: pf.Node, b: pf.Node, lab: str) -> bool:
+        return lab != 'exc' or a.kind == 'raise'
+
+    # grant methods: synchronous methods every normal execution of which runs the wake loop (closed under calls on every path)
+    grant: set = set()
+
+    def grant_nodes(fname: str) -> List[pf.Node]:
+        cfg = pf.cfg(by_name[fname])
+        out = []
+        if fname in loops:
+            out.append(af.test_node(cfg, loops[fname].stmt.test))  # type: ignore[union-attr]
+        for n in cfg.nodes:
+            if n.ast is not None and any(g in grant and not aw for g, _, aw in self_calls(n, fname)):
+                out.append(n)
+        return out
+    changed = True
+    while changed:
+        changed = False
+        for f in methods:
+            if f.name in grant or not isinstance(f, ast.FunctionDef):
+                continue
+            cfg = pf.cfg(f)
+            gn = grant_nodes(f.name)
+            if gn and cfg.path_avoiding(cfg.entry, lambda n: n is cfg.exit, lambda n: any(n is x for x in gn), edge_ok=normal) is None:
+                grant.add(f.name)
+                changed = True
+
+    def removal(n: pf.Node) -> Optional[str]:
+        for c in pf.node_calls(n):
+            d = pf.dotted(c.func) or ''
+            if d.startswith(Q + '.') and d[len(Q) + 1:] in ('remove', 'popleft', 'pop', 'clear'):
+                return pf.nsrc(c)
+        a = n.ast
+        if n.kind == 'stmt' and isinstance(a, ast.Delete) and any(isinstance(t, ast.Subscript) and pf.nsrc(t.value) == Q for t in a.targets):
+            return pf.nsrc(a)
+        return None
+
+    def increase(n: pf.Node) -> Optional[str]:
+        a = n.ast
+        if n.kind == 'stmt' and isinstance(a, ast.AugAssign) and isinstance(a.op, ast.Add) and pf.nsrc(a.target) == VAL:
+            return pf.nsrc(a)
+        return None
+    called_inside = {g for f in methods for n in pf.cfg(f).nodes if n.ast is not None for g, _, _ in self_calls(n, f.name)}
+    # methods that return with the invariant disturbed (private synchronous helpers): their call sites are disturbances of the caller
+    disturbing: Dict[str, str] = {}
+    holes: List[_Hole] = []
+    verdicts: Dict[str, Tuple[bool, str, int]] = {}
+    for _round in range(len(methods) + 1):
+        verdicts = {}
+        holes = []
+        before = dict(disturbing)
+        for f in methods:
+            if f.name == '__init__':
+                continue
+            cfg = pf.cfg(f)
+            q = f'{CLS}.{f.name}'
+            reach = cfg.reachable_from(cfg.entry)
+            normal_reach = cfg.reachable_from(cfg.entry, edge_ok=lambda a, b, lab: lab != 'exc')
+            gn = grant_nodes(f.name)
+            for D in cfg.nodes:
+                if D.ast is None or D.id not in reach or D.kind == 'except':
+                    continue
+                what = removal(D)
+                kind = 'removal'
+                if what is None:
+                    what = increase(D)
+                    kind = 'increase'
+                if what is None:
+                    ds = [(g, c) for g, c, aw in self_calls(D, f.name) if g in disturbing and g not in grant]
+                    if ds:
+                        what, kind = pf.nsrc(ds[0][1]), 'call'
+                if what is None:
+                    continue
+                susp = lambda n: n is not D and n.ast is not None and (pf.node_has_await(n) or any(isinstance(x, (ast.Yield, ast.YieldFrom)) for e in pf.node_exprs(n) for x in pf.walk_shallow(e)))  # noqa: E731
+                goal = lambda n: n is cfg.exit or n is cfg.raise_exit or susp(n)  # noqa: E731
+                p = cfg.path_avoiding(D, goal, lambda n: any(n is x for x in gn), edge_ok=lambda a, b, lab: normal(a, b, lab) and not (a is D and lab == 'exc'))
+                cons = f'{F}::{q}::{what}::wake loop runs before the next suspension'
+                if p is None:
+                    verdicts[cons] = (True, 'the wake loop runs on every path before the coroutine suspends or the method returns', D.lineno)
+                    continue
+                end = p[-1]
+                if end is cfg.exit and isinstance(f, ast.FunctionDef) and f.name in called_inside and f.name not in grant:
+                    disturbing[f.name] = what   # decided at the call sites
+                    continue
+                where = ('the method returns' if end is cfg.exit else 'the exception leaves the method' if end is cfg.raise_exit else f'the coroutine suspends at `{short(end.text(), 60)}`')
+                cause = {'removal': f'`{what}` takes an entry out of the waiter queue, so a different waiter may now be at the head',
+                         'increase': f'`{what}` frees capacity',
+                         'call': f'`{what}` returns with the queue/counter changed ({disturbing.get(what.split("(")[0].split(".")[-1], "")})'}[kind]
+                msg = (f'{cause}, but {where} (path: {cf.describe_path(p)}) without running the wake loop of {"/".join(sorted(loops))}: the head of the queue may fit into {VAL} '
+                       f'and is not woken. {_R6_HISTORY}')
+                if D.id not in normal_reach and kind == 'removal':
+                    # reached only through an exception edge: clean-up of a wait that raised, i.e. was cancelled
+                    holes.append(_Hole(cons, msg, m.path, D.lineno))
+                    continue
+                verdicts[cons] = (False, msg, D.lineno)
+        if disturbing == before:
+            break
+    for cons, (ok, msg, line) in verdicts.items():
+        ctx.check(ok, 'R6', cons, msg if not ok else '', m.path, line, detail=msg if ok else None)
+    # an own-entry removal must happen only while the entry is still queued (not yet granted): otherwise the weight release() took on the waiter's behalf is lost
+    for f in methods:
+        cfg = pf.cfg(f)
+        reach = cfg.reachable_from(cfg.entry)
+        for D in cfg.nodes:
+            if D.ast is None or D.id not in reach:
+                continue
+            for c in pf.node_calls(D):
+                if pf.dotted(c.func) != f'{Q}.remove' or _own_entry(m, c)[0] != 'own':
+                    continue
+                ent = _entry_expr(f, c.args[0])
+                evs = [x.id for x in (ent.elts if isinstance(ent, ast.Tuple) else [ent]) if isinstance(x, ast.Name)
+                       and isinstance(pf.single_def(f, x.id), ast.Call) and (pf.dotted(pf.single_def(f, x.id).func) or '').split('.')[-1] == 'Event']  # type: ignore[union-attr]
+                cons = f'{F}::{CLS}.{f.name}::{pf.nsrc(c)}::only while still queued'
+                ctx.need(len(evs) == 1, f'{cons}: the entry carries no single asyncio.Event')
+                ev = evs[0]
+                guarded = False
+                for t in cfg.nodes:
+                    if t.kind != 'test':
+                        continue
+                    for lab in ('T', 'F'):
+                        if not any(l_ == lab for _, l_ in t.succ) or not af.every_path_uses_edge(cfg, D, t, lab) or not af.direct(cfg, t, D, lab):
+                            continue
+                        still = af.implied_on_edge(t.ast, lab, f'{ev}.is_set()', False) or any(
+                            af.implied_on_edge(t.ast, lab, k, True) for k in (f'{pf.nsrc(c.args[0])} in {Q}', f'{pf.nsrc(ent)} in {Q}'))
+                        if still and not any(pf.node_has_await(x) for x in af.between(cfg, t, D, lab)):
+                            guarded = True
+                if not guarded:
+                    par = m.parents()
+                    cur = par.get(c)
+                    while cur is not None and cur is not f:
+                        ctx.need(not (isinstance(cur, ast.Try) and any(h.type is not None and 'ValueError' in pf.nsrc(h.type) for h in cur.handlers)),
+                                 f'{cons}: removal protected by `except ValueError` (not analysed)')
+                        cur = par.get(cur)
+                ctx.check(guarded, 'R6', cons,
+                          f'`{pf.nsrc(c)}` is not guarded (atomically, no await in between) by `not {ev}.is_set()`: when release() granted this waiter in the same tick (it popped the entry, '
+                          f'took the weight off {VAL} and set the event) the removal raises ValueError, acquire fails and nobody gives that weight back - {VAL} stays short for good and a head '
+                          'waiter that fits the idle worker stays blocked (liveness)', m.path, D.lineno, detail=f'guarded by not {ev}.is_set()')
+    return holes
+
+
+class _AcqSpec:
+    """What a caller of acquire has to know: can it return WITHOUT holding the weight (the waiter gave up), and how is that signalled."""
+
+    def __init__(self) -> None:
+        self.conditional = False            # some return is reached after the waiter took its own entry out / before it took anything
+        self.granted_truthy = True          # truth value of the result when the weight is held (meaningful when conditional)
+        self.extra_params: List[str] = []   # optional parameters after the weight
+        self.giveup_needs: List[str] = []   # giving up happens only when one of these optional parameters is not None ([] = not established)
+
+
+def _ret_value(n: pf.Node) -> Optional[ast.AST]:
+    return n.ast.value if n.kind == 'return' and isinstance(n.ast, ast.Return) else None
+
+
+def _acquire(ctx: Ctx, m: pf.Module, cls: ast.ClassDef, guards: List[af.Guarded]) -> Tuple[Optional[List[str]], _AcqSpec]:
+    """R2 fast path requires empty queue, R3 exact fast-path condition and slow path.  Returns the appended tuple layout and the result convention."""
     fn = af.method(m, cls, 'acquire')
     ctx.need(isinstance(fn, ast.AsyncFunctionDef), 'acquire is not a coroutine')
     cfg = pf.cfg(fn)
     params = [a.arg for a in fn.args.args]
-    ctx.need(len(params) == 2, f'acquire parameters changed: {params}')
+    # (self, weight) plus optional parameters with defaults: `acquire(w)` must stay a valid call
+    ctx.need(len(params) >= 2 and len(fn.args.defaults) >= len(params) - 2 and not fn.args.vararg and not fn.args.kwarg and not fn.args.posonlyargs
+             and all(d is not None for d in fn.args.kw_defaults), f'acquire parameters changed: {params}')
     w = params[1]
+    spec = _AcqSpec()
+    spec.extra_params = params[2:] + [a.arg for a in fn.args.kwonlyargs]
     gs = [g for g in guards if g.fnname == 'acquire']
     qn = f'{CLS}.acquire'
     if len(gs) != 1:
         ctx.need(not gs, f'{qn}: {len(gs)} guarded decrements (expected one fast path)')
         af.blocked(ctx, 'R1', 'R2', 'R3')  # R1 already reported the unguarded decrement
-        return None
+        return None, spec
     g = gs[0]
     ctx.need(g.w == w, f'{qn}: fast path decrements `{g.w}`, not the requested weight `{w}`')
     cons = f'{F}::{qn}::fast path `{pf.nsrc(g.test.ast)}`'
@@ -154,32 +375,136 @@ def _acquire(ctx: Ctx, m: pf.Module, cls: ast.ClassDef, guards: List[af.Guarded]
         ctx.need(len(apps) == 0, f'{qn}: {len(apps)} enqueue statements')
         ctx.bad('R3', cons2, 'a request that cannot be granted immediately is never enqueued', m.path, fn.lineno)
         af.blocked(ctx, 'R3', 'R2', 'R3')
-        return None
+        return None, spec
     A = apps[0]
     call = af.node_is_call(A, f'{Q}.append')
-    ctx.need(call is not None and len(call.args) == 1 and isinstance(call.args[0], ast.Tuple) and all(isinstance(e, ast.Name) for e in call.args[0].elts),
-             f'{qn}: enqueued element is not a tuple of names')
-    layout = [e.id for e in call.args[0].elts]  # type: ignore[union-attr,attr-defined]
+    ent = _entry_expr(fn, call.args[0]) if call is not None and len(call.args) == 1 else None
+    ctx.need(isinstance(ent, ast.Tuple) and all(isinstance(e, ast.Name) for e in ent.elts), f'{qn}: enqueued element is not a tuple of names')
+    if ent is not call.args[0]:  # type: ignore[union-attr]
+        ctx.need(all(len(pf.assignments(fn).get(nm, [])) == 1 for nm in pf.names_in(call.args[0])), f'{qn}: the enqueued local is assigned more than once')  # type: ignore[union-attr]
+    layout = [e.id for e in ent.elts]  # type: ignore[union-attr,attr-defined]
     ctx.need(w in layout and len(layout) == 2, f'{qn}: enqueued tuple {layout} does not carry the weight `{w}`')
     evname = [x for x in layout if x != w][0]
     edef = pf.single_def(fn, evname)
     ctx.need(isinstance(edef, ast.Call) and pf.dotted(edef.func) in ('asyncio.Event', 'Event'), f'{qn}: `{evname}` is not a fresh asyncio.Event()')
-    # every path from the not-granted edge to the exit enqueues and then waits on the event
+    # every path from the not-granted edge to the exit enqueues, and then either waits on the event (directly), or learns from `event.is_set()` that it was granted,
+    # or takes its own entry out again (gives up: it holds nothing; the result convention is checked below and used by R4)
     miss = af.must_pass(cfg, g.test, lambda n: n is cfg.exit, lambda n: n is A, first_label=other)
     wait_nodes = [n for n in waits if any(isinstance(x, ast.Await) and pf.call_name(x) == f'{evname}.wait' for x in ast.walk(n.ast))]
-    ok = miss is None and len(wait_nodes) == 1
+    own_rm = [n for n in af.stmt_nodes(cfg, lambda n: af.node_is_call(n, f'{Q}.remove') is not None) if _own_entry(m, af.node_is_call(n, f'{Q}.remove'))[0] == 'own']
+    set_edges = [(t, lab) for t in cfg.nodes if t.kind == 'test' for lab in ('T', 'F') if af.implied_on_edge(t.ast, lab, f'{evname}.is_set()', True)]
+    thru = wait_nodes + own_rm
+
+    def not_granted_edge(a: pf.Node, b: pf.Node, lab: str) -> bool:
+        return not any(a is t and lab == l_ for t, l_ in set_edges)
+    ok = miss is None and bool(wait_nodes or set_edges)
     if ok:
-        Wn = wait_nodes[0]
-        ok = af.must_pass(cfg, A, lambda n: n is cfg.exit, lambda n: n is Wn) is None
-        # nothing between enqueue and wait may set the event
-        mid = af.between(cfg, A, Wn)
-        ok = ok and not any(af.node_is_call(x, f'{evname}.set') for x in mid)
-    ctx.check(ok, 'R3', cons2, 'a request that is not granted immediately does not (on every path) enqueue itself and then wait on the enqueued event: '
-              'it returns without holding capacity or is never woken', m.path, A.lineno, detail={'layout': layout})
+        ok = af.must_pass(cfg, A, lambda n: n is cfg.exit, lambda n: any(n is x for x in thru), edge_ok=not_granted_edge) is None
+        # nothing between enqueue and a wait may set the event
+        for Wn in wait_nodes:
+            ok = ok and not any(af.node_is_call(x, f'{evname}.set') for x in af.between(cfg, A, Wn))
+        ok = ok and not any(af.node_is_call(x, f'{evname}.set') for x in cfg.nodes if x.ast is not None)
+    ctx.check(ok, 'R3', cons2, 'a request that is not granted immediately does not (on every path) enqueue itself and then wait on the enqueued event (or take its own entry out again): '
+              'it returns without holding capacity while its entry stays queued, or is never woken', m.path, A.lineno, detail={'layout': layout})
     # acquire must not touch the counter after being woken (release already decremented for it): covered by R1 (any decrement needs a guard)
     ctx.check(A.id not in {x.id for x in af.between(cfg, g.test, g.dec, g.label)} and not af.direct(cfg, g.dec, A),
               'R3', cons2 + '::exclusive', 'the fast path also enqueues the request (it would be granted twice)', m.path, A.lineno)
-    return [('event' if x == evname else 'weight') for x in layout]
+    # acquire calling release itself (to pass the baton / to give back a grant it abandons): only what this waiter actually holds may be given back
+    unset_edges = [(t, lab) for t in cfg.nodes if t.kind == 'test' for lab in ('T', 'F') if af.implied_on_edge(t.ast, lab, f'{evname}.is_set()', False)]
+    recv0 = fn.args.args[0].arg
+    for n in af.stmt_nodes(cfg, lambda n: af.node_is_call(n, f'{recv0}.release') is not None):
+        rc = af.node_is_call(n, f'{recv0}.release')
+        cons3 = f'{F}::{qn}::{pf.nsrc(rc)}::gives back only what it holds'
+        ctx.need(rc is not None and len(rc.args) == 1 and not rc.keywords, f'{cons3}: unrecognised call')
+        arg = rc.args[0]  # type: ignore[union-attr]
+        held = any(af.every_path_uses_edge(cfg, n, t, lab) for t, lab in set_edges)
+        not_held = any(af.every_path_uses_edge(cfg, n, t, lab) for t, lab in unset_edges) or any(cfg.dominated_by(n, lambda y, u=u: y is u) for u in own_rm)
+        ctx.need(held != not_held, f'{cons3}: cannot decide whether the waiter holds its weight at this point')
+        zero = isinstance(arg, ast.Constant) and arg.value == 0 and not isinstance(arg.value, bool)
+        if held:
+            ctx.check(pf.nsrc(arg) == w, 'R4', cons3, f'the waiter was granted `{w}` (release() took it off {VAL} on its behalf) and abandons the grant, but gives back `{pf.nsrc(arg)}`: '
+                      f'{VAL} stays short for good - a head waiter that fits the idle worker stays blocked (liveness)', m.path, n.lineno, detail='granted weight given back')
+        else:
+            ctx.check(zero, 'R4', cons3, f'the waiter was NOT granted anything on this path (its entry was still queued) but gives back `{pf.nsrc(arg)}`: {VAL} exceeds the capacity and later jobs are '
+                      'granted more CPU than the worker has (safety); only `release(0)` (re-run the wake loop) is neutral', m.path, n.lineno, detail='release(0): wake loop only')
+    if ok:
+        _result_convention(ctx, m, fn, cfg, g, A, wait_nodes, own_rm, set_edges, spec)
+    return [('event' if x == evname else 'weight') for x in layout], spec
+
+
+def _result_convention(ctx: Ctx, m: pf.Module, fn: pf.FuncDef, cfg: pf.CFG, g: af.Guarded, A: pf.Node, wait_nodes: List[pf.Node], own_rm: List[pf.Node],
+                       set_edges: List[Tuple[pf.Node, str]], spec: _AcqSpec) -> None:
+    """Classify every normal exit of acquire as GRANTED (the weight is held: fast-path decrement, completed wait, `event.is_set()` seen true) or GAVE UP (own entry taken out
+    again, or left before taking/enqueueing anything) and compare the returned constants: the caller must be able to tell the two apart (R4)."""
+    qn = f'{CLS}.acquire'
+    rets: List[Tuple[pf.Node, Optional[ast.AST]]] = [(p, _ret_value(p)) for p, _ in cfg.exit.pred if p.ast is not None or p is cfg.entry]
+    granted_marks = [g.dec] + wait_nodes + [b for t, lab in set_edges for b, l_ in t.succ if l_ == lab]
+    for t, lab in set_edges:
+        for b, l_ in t.succ:
+            ctx.need(l_ != lab or len(b.pred) == 1, f'{qn}: the branch taken when the event is set joins other paths immediately')
+    is_g = lambda n: any(n is x for x in granted_marks)  # noqa: E731
+    is_u = lambda n: any(n is x for x in own_rm)  # noqa: E731
+    classes: Dict[str, List[Tuple[pf.Node, Optional[ast.AST]]]] = {'granted': [], 'gave up': [], 'early': []}
+    for rn, val in rets:
+        dom_g = is_g(rn) or cfg.dominated_by(rn, is_g)
+        dom_u = is_u(rn) or cfg.dominated_by(rn, is_u)
+        reach_u = is_u(rn) or any(rn.id in cfg.reachable_from(u) for u in own_rm)
+        reach_g = is_g(rn) or any(rn.id in cfg.reachable_from(x) for x in granted_marks)
+        regrant = any(x.id in cfg.reachable_from(u) and (rn is x or rn.id in cfg.reachable_from(x)) for u in own_rm for x in granted_marks)
+        if dom_u and not regrant:
+            classes['gave up'].append((rn, val))
+        elif dom_g and not reach_u:
+            classes['granted'].append((rn, val))
+        elif not reach_g and not reach_u and rn.id not in cfg.reachable_from(A):
+            classes['early'].append((rn, val))     # left before taking or enqueueing anything
+        else:
+            raise AnalysisError(f'{qn}: cannot classify the exit `{rn.text()}` as granted / gave up')
+
+    def truth(v: Optional[ast.AST]) -> Optional[bool]:
+        if v is None:
+            return False
+        if isinstance(v, ast.Constant):
+            return bool(v.value)
+        return None
+    tg = {truth(v) for _, v in classes['granted']}
+    for rn, v in classes['early']:
+        # an exit before anything was taken or enqueued: a give-up when it is signalled differently from a grant; otherwise the caller proceeds (and later releases) although nothing is held
+        ctx.need(truth(v) is not None and truth(v) not in tg, f'{qn}: `{rn.text()}` leaves before taking or enqueueing anything, yet signals like a grant (not analysed)')
+        classes['gave up'].append((rn, v))
+    spec.conditional = bool(classes['gave up'])
+    if not spec.conditional:
+        return
+    tu = {truth(v) for _, v in classes['gave up']}
+    ctx.need(None not in tg and None not in tu, f'{qn}: the result is not a constant on every exit (granted / gave-up convention not analysed)')
+    cons = f'{F}::{qn}::result tells granted from gave up'
+    clash = tg & tu
+    if clash or len(tg) != 1:
+        ex = [rn for rn, v in classes['gave up'] if truth(v) in tg] or [classes['gave up'][0][0]]
+        ctx.bad('R4', cons, f'acquire can give up waiting (its own entry is taken out of the queue / it returns before taking anything) but then returns `{ex[0].text()}`, the same truth value as '
+                'after a grant: the caller cannot tell that it holds nothing - it runs the job without its cores and releases weight it never took, so value exceeds the capacity (safety)',
+                m.path, ex[0].lineno)
+        return
+    spec.granted_truthy = next(iter(tg))  # type: ignore[assignment]
+    ctx.ok('R4', cons, {'granted': sorted({pf.nsrc(v) if v is not None else 'None' for _, v in classes['granted']}),
+                        'gave up': sorted({pf.nsrc(v) if v is not None else 'None' for _, v in classes['gave up']})})
+    # which optional parameter enables giving up?  every gave-up exit is dominated by a test edge implying `<p> is not None`
+    opt = [p for p in spec.extra_params]
+    needs = []
+    for p in opt:
+        allp = True
+        for rn, _ in classes['gave up']:
+            dom = False
+            for t in cfg.nodes:
+                if t.kind != 'test':
+                    continue
+                for lab in ('T', 'F'):
+                    if any(l_ == lab for _, l_ in t.succ) and af.every_path_uses_edge(cfg, rn, t, lab) and (
+                            af.implied_on_edge(t.ast, lab, f'{p} is not None', True) or af.implied_on_edge(t.ast, lab, f'{p} is None', False)):
+                        dom = True
+            allp = allp and dom
+        if allp:
+            needs.append(p)
+    spec.giveup_needs = needs
 
 
 def _release(ctx: Ctx, m: pf.Module, cls: ast.ClassDef, guards: List[af.Guarded], layout: Optional[List[str]]) -> None:
@@ -276,11 +601,22 @@ def _release(ctx: Ctx, m: pf.Module, cls: ast.ClassDef, guards: List[af.Guarded]
                   if stray else '', m.path, stray[0].lineno if stray else 0)
 
 
-def _ctx_manager(ctx: Ctx, m: pf.Module) -> None:
+class _CMSpec:
+    def __init__(self) -> None:
+        self.call_extra: List[str] = []        # optional parameters of FIFOWeightedSemaphore.__call__ after the weight
+        self.extra_to_acquire: Dict[str, str] = {}  # __call__ parameter -> acquire parameter it ends up as
+        self.yields_flag = False               # `async with sem(w) as x` binds the granted/gave-up result
+
+
+def _ctx_manager(ctx: Ctx, m: pf.Module, spec: _AcqSpec) -> _CMSpec:
+    out = _CMSpec()
     cm = m.cls(CM)
+    cls = m.cls(CLS)
+    acq = af.method(m, cls, 'acquire')
+    acq_params = [a.arg for a in acq.args.args][1:] + [a.arg for a in acq.args.kwonlyargs]
     init = af.method(m, cm, '__init__')
     params = [a.arg for a in init.args.args]
-    ctx.need(len(params) == 3, f'{CM}.__init__ parameters changed: {params}')
+    ctx.need(len(params) >= 3 and len(init.args.defaults) >= len(params) - 3 and not init.args.vararg and not init.args.kwarg, f'{CM}.__init__ parameters changed: {params}')
     fields = {}
     for st in init.body:
         if isinstance(st, ast.Assign) and len(st.targets) == 1 and isinstance(st.targets[0], ast.Attribute) and isinstance(st.value, ast.Name):
@@ -288,41 +624,131 @@ def _ctx_manager(ctx: Ctx, m: pf.Module) -> None:
     sem_f = [k for k, v in fields.items() if v == params[1]]
     w_f = [k for k, v in fields.items() if v == params[2]]
     ctx.need(len(sem_f) == 1 and len(w_f) == 1, f'{CM}.__init__ does not store (sem, weight) in two attributes')
+    extra_f = {k: v for k, v in fields.items() if v in params[3:]}
     # attributes are not reassigned elsewhere
     for st in ast.walk(cm):
-        if isinstance(st, ast.Attribute) and isinstance(st.ctx, ast.Store) and pf.nsrc(st) in (sem_f[0], w_f[0]):
+        if isinstance(st, ast.Attribute) and isinstance(st.ctx, ast.Store) and pf.nsrc(st) in [sem_f[0], w_f[0]] + list(extra_f):
             ctx.need(m.enclosing_func(st) is init, f'{CM}: {pf.nsrc(st)} reassigned outside __init__')
     en = af.method(m, cm, '__aenter__')
     ex = af.method(m, cm, '__aexit__')
     # enter: exactly one acquire of the stored weight, awaited, on every path
     cfg = pf.cfg(en)
-    acq = af.stmt_nodes(cfg, lambda n: any(isinstance(x, ast.Await) and pf.call_name(x) == f'{sem_f[0]}.acquire' for x in ast.walk(n.ast)))
+    acqn = af.stmt_nodes(cfg, lambda n: any(isinstance(x, ast.Await) and pf.call_name(x) == f'{sem_f[0]}.acquire' for x in ast.walk(n.ast)))
     cons = f'{F}::{CM}.__aenter__'
-    ok = len(acq) == 1 and cfg.dominated_by(cfg.exit, lambda n: n is acq[0])
+    ok = len(acqn) == 1 and cfg.dominated_by(cfg.exit, lambda n: n is acqn[0])
+    flag_f: Optional[str] = None
     if ok:
-        c = af.node_is_call(acq[0], f'{sem_f[0]}.acquire')
-        ok = c is not None and [pf.nsrc(a) for a in c.args] == [w_f[0]] and not c.keywords
+        c = af.node_is_call(acqn[0], f'{sem_f[0]}.acquire')
+        ok = c is not None and bool(c.args) and pf.nsrc(c.args[0]) == w_f[0]
+        if ok:
+            # further arguments: stored constructor arguments passed through to optional parameters of acquire
+            bound: Dict[str, ast.AST] = {}
+            for prm, a in zip(acq_params[1:], c.args[1:]):  # type: ignore[union-attr]
+                bound[prm] = a
+            for k in c.keywords:  # type: ignore[union-attr]
+                ctx.need(k.arg is not None and k.arg in acq_params[1:], f'{cons}: `{pf.nsrc(c)}` passes an argument acquire does not take')
+                bound[k.arg] = k.value  # type: ignore[index]
+            ctx.need(len(c.args) <= len(acq_params), f'{cons}: `{pf.nsrc(c)}` passes more arguments than acquire takes')  # type: ignore[union-attr]
+            for prm, a in bound.items():
+                ctx.need(pf.nsrc(a) in extra_f, f'{cons}: `{pf.nsrc(a)}` passed as `{prm}` is not a stored constructor argument')
+                out.extra_to_acquire[extra_f[pf.nsrc(a)]] = prm
     ctx.check(ok, 'R4', cons, f'__aenter__ does not `await {sem_f[0]}.acquire({w_f[0]})` exactly once on every path', m.path, en.lineno)
+    # can this acquisition give up?  only when it passes an argument that enables giving up
+    may_give_up = spec.conditional and (not spec.giveup_needs or any(p_ in out.extra_to_acquire.values() for p_ in spec.giveup_needs))
+    if ok and may_give_up:
+        st = acqn[0].ast
+        cons2 = cons + '::keeps the result'
+        if isinstance(st, ast.Assign) and len(st.targets) == 1 and isinstance(st.value, ast.Await) and isinstance(st.targets[0], ast.Attribute) \
+                and isinstance(st.targets[0].value, ast.Name) and st.targets[0].value.id == en.args.args[0].arg:
+            flag_f = pf.nsrc(st.targets[0])
+            ctx.ok('R4', cons2, flag_f)
+        elif isinstance(st, ast.Expr):
+            ctx.bad('R4', cons2, f'`{pf.nsrc(st)}` drops the result of acquire, which can give up waiting (it then holds nothing): __aexit__ cannot know whether there is anything to release, '
+                    'and the body runs without its cores', m.path, st.lineno)
+        else:
+            raise AnalysisError(f'{cons2}: the result of acquire is kept in an unrecognised way (`{pf.nsrc(st)}`)')
+        if flag_f is not None:
+            # the flag is written only: constants in __init__ / __aexit__, the result in __aenter__
+            for x in ast.walk(cm):
+                if isinstance(x, ast.Attribute) and isinstance(x.ctx, ast.Store) and pf.nsrc(x) == flag_f and x is not st.targets[0]:  # type: ignore[union-attr]
+                    pst = m.parents().get(x)
+                    fnx = m.enclosing_func(x)
+                    okw = isinstance(pst, ast.Assign) and isinstance(pst.value, ast.Constant) and bool(pst.value.value) != spec.granted_truthy and fnx in (init, ex)
+                    ctx.need(okw, f'{CM}: `{flag_f}` is also written by `{pf.nsrc(pst) if pst is not None else flag_f}`')
+            # what `as x` binds
+            rets = [p for p, _ in cfg.exit.pred]
+            vals = {pf.nsrc(_ret_value(p)) if _ret_value(p) is not None else None for p in rets}
+            out.yields_flag = vals == {flag_f}
     cfg = pf.cfg(ex)
     rel = af.stmt_nodes(cfg, lambda n: af.node_is_call(n, f'{sem_f[0]}.release') is not None)
     cons = f'{F}::{CM}.__aexit__'
-    ok = len(rel) == 1 and cfg.dominated_by(cfg.exit, lambda n: n is rel[0]) and not af.direct(cfg, rel[0], rel[0])
-    if ok:
-        c = af.node_is_call(rel[0], f'{sem_f[0]}.release')
-        ok = c is not None and [pf.nsrc(a) for a in c.args] == [w_f[0]] and not c.keywords
-        # nothing that can suspend (and be cancelled) before the release
-        pre = [n for n in cfg.nodes if n.ast is not None and pf.node_has_await(n) and af.direct(cfg, n, rel[0])]
-        ok = ok and not pre
-    ctx.check(ok, 'R4', cons, f'__aexit__ does not release exactly the acquired weight `{w_f[0]}` once, unconditionally and before any suspension point '
-              f'(found {[n.text() for n in rel]}): capacity leaks or is returned twice', m.path, ex.lineno)
-    # __call__ builds the manager for this semaphore and the requested weight
-    cls = m.cls(CLS)
+    if flag_f is None and may_give_up:
+        pass  # `keeps the result` reported that __aexit__ cannot know whether anything is held
+    elif flag_f is None:
+        ok = len(rel) == 1 and cfg.dominated_by(cfg.exit, lambda n: n is rel[0]) and not af.direct(cfg, rel[0], rel[0])
+        if ok:
+            c = af.node_is_call(rel[0], f'{sem_f[0]}.release')
+            ok = c is not None and [pf.nsrc(a) for a in c.args] == [w_f[0]] and not c.keywords
+            # nothing that can suspend (and be cancelled) before the release
+            pre = [n for n in cfg.nodes if n.ast is not None and pf.node_has_await(n) and af.direct(cfg, n, rel[0])]
+            ok = ok and not pre
+        ctx.check(ok, 'R4', cons, f'__aexit__ does not release exactly the acquired weight `{w_f[0]}` once, unconditionally and before any suspension point '
+                  f'(found {[n.text() for n in rel]}): capacity leaks or is returned twice', m.path, ex.lineno)
+    else:
+        # release exactly once iff the flag says "granted"
+        ok = len(rel) == 1 and not af.direct(cfg, rel[0], rel[0])
+        why = f'found {[n.text() for n in rel]}'
+        if ok:
+            c = af.node_is_call(rel[0], f'{sem_f[0]}.release')
+            ok = c is not None and [pf.nsrc(a) for a in c.args] == [w_f[0]] and not c.keywords
+            pre = [n for n in cfg.nodes if n.ast is not None and pf.node_has_await(n) and af.direct(cfg, n, rel[0])]
+            ok = ok and not pre
+        if ok:
+            guards_ = [(t, lab) for t in cfg.nodes if t.kind == 'test' for lab in ('T', 'F') if any(l_ == lab for _, l_ in t.succ)
+                       and af.implied_on_edge(t.ast, lab, flag_f, spec.granted_truthy) and af.every_path_uses_edge(cfg, rel[0], t, lab)]
+            inverted = [(t, lab) for t in cfg.nodes if t.kind == 'test' for lab in ('T', 'F') if any(l_ == lab for _, l_ in t.succ)
+                        and af.implied_on_edge(t.ast, lab, flag_f, not spec.granted_truthy) and af.every_path_uses_edge(cfg, rel[0], t, lab)]
+            tests_flag = [t for t in cfg.nodes if t.kind == 'test' and af.mentions(t.ast, flag_f)]
+            if guards_:
+                t, lab = guards_[0]
+                # ... and on every path where the flag says granted the release is reached, with the flag not rewritten before the test
+                miss = af.must_pass(cfg, t, lambda n: n is cfg.exit, lambda n: n is rel[0], first_label=lab)
+                other_lab = 'F' if lab == 'T' else 'T'
+                exact = af.implied_on_edge(t.ast, other_lab, flag_f, not spec.granted_truthy)
+                pre_w = [n for n in cfg.nodes if n.ast is not None and af.writes_attr(n, flag_f) and af.direct(cfg, n, t)]
+                ok = miss is None and exact and not pre_w and cfg.dominated_by(cfg.exit, lambda n: n is t)
+                why = 'some exit with the weight held skips the release' if not ok else ''
+            elif inverted:
+                ok = False
+                why = f'the release is reached only when `{flag_f}` says that acquire gave up'
+            elif not tests_flag:
+                ok = False
+                why = f'the release does not depend on `{flag_f}`: a waiter that gave up (it holds nothing) releases too'
+            else:
+                raise AnalysisError(f'{cons}: the test guarding the release is not recognised')
+        ctx.check(ok, 'R4', cons, f'__aexit__ does not release the weight `{w_f[0]}` exactly once iff `{flag_f}` says it was granted ({why}): weight never taken is returned - value exceeds the '
+                  'capacity and more CPU is granted than the worker has (safety) - or held weight is never returned (a head waiter that fits the idle worker stays blocked)', m.path, ex.lineno)
+    # __call__ builds the manager for this semaphore and the requested weight (optional further parameters are passed through)
     call = af.method(m, cls, '__call__')
     body = af.body_no_doc(call)
     p2 = [a.arg for a in call.args.args]
+    ctx.need(len(p2) >= 2 and len(call.args.defaults) >= len(p2) - 2 and not call.args.vararg and not call.args.kwarg, f'{CLS}.__call__ parameters changed: {p2}')
     ok = len(body) == 1 and isinstance(body[0], ast.Return) and isinstance(body[0].value, ast.Call) and pf.dotted(body[0].value.func) == CM \
-        and [pf.nsrc(a) for a in body[0].value.args] == p2 and not body[0].value.keywords
+        and [pf.nsrc(a) for a in body[0].value.args] == p2[:len(body[0].value.args)] and len(body[0].value.args) >= 2 \
+        and all(k.arg is not None and isinstance(k.value, ast.Name) for k in body[0].value.keywords)
+    if ok:
+        cc = body[0].value  # type: ignore[union-attr]
+        passed = dict(zip(params[1:], [pf.nsrc(a_) for a_ in cc.args]))     # constructor parameter -> __call__ expression
+        for k in cc.keywords:
+            ok = ok and k.arg in params[1:] and k.arg not in passed
+            passed[k.arg] = pf.nsrc(k.value)
+        ok = ok and passed.get(params[1]) == p2[0] and passed.get(params[2]) == p2[1] and set(passed.values()) <= set(p2) and len(set(passed.values())) == len(passed)
+    if ok:
+        by_call = {v: k for k, v in passed.items()}   # __call__ parameter -> constructor parameter
+        out.call_extra = p2[2:]
+        out.extra_to_acquire = {cp: out.extra_to_acquire[by_call[cp]] for cp in p2[2:] if by_call.get(cp) in out.extra_to_acquire}
     ctx.check(ok, 'R4', f'{F}::{CLS}.__call__', f'does not return {CM}(self, weight)', m.path, call.lineno)
+    return out
 
 
 def _strip_int(e: ast.AST) -> ast.AST:
@@ -496,10 +922,26 @@ _ABANDONED = ('FIFOWeightedSemaphore.acquire has no cancellation clean-up, so th
               '(value == 2000): a waiter at the head of the queue is blocked while all capacity is free (liveness)')
 
 
+_HOLES: List[_Hole] = []
+
+
+def _report_holes(ctx: Ctx, how: str) -> bool:
+    """A queued wait CAN be cancelled on its own and acquire's cancellation clean-up removes the entry without serving the new head: liveness violation (R6)."""
+    if not _HOLES:
+        return False
+    for h in _HOLES:
+        if not h.reported:
+            h.reported = True
+            ctx.bad('R6', h.cons, f'{h.msg}. This clean-up does run: {how}', h.path, h.line)
+    return True
+
+
 def _r5_handed(ctx: Ctx, m: pf.Module, mf: 'cf.ModFuncs', exposed, q: str, handed: ast.AST, recv: ast.Call, cancel_safe: bool, what: str) -> None:
     verdict, how = cf.handover_verdict(mf, exposed, q, recv, handed)
     cons = f'{m.rel}::{q}::{short(pf.nsrc(recv), 90)}'
     if verdict == 'cancels':
+        if cancel_safe and _report_holes(ctx, f'{what} is handed to a caller that may cancel it while it is still queued ({how})'):
+            return
         ctx.need(not cancel_safe, f'{cons}: {what} can be cancelled while queued ({how}) and acquire has a cancellation handler: whether that handler restores the queue/counter is not analysed')
         ctx.bad('R5', cons, f'{what} is handed to a caller that may cancel it while it is still QUEUED: {how}. {_ABANDONED}', m.path, recv.lineno)
         return
@@ -567,6 +1009,8 @@ def _r5_sites(ctx: Ctx, m: pf.Module, mf: 'cf.ModFuncs', exposed, sites: List[Tu
         tb = timeout_blocks(node)
         cons = f'{m.rel}::{q}::{short(pf.nsrc(node).splitlines()[0] if not isinstance(node, ast.AsyncWith) else "async with " + pf.nsrc(node.items[0].context_expr), 70)}::not abandoned while queued'
         if tb:
+            if cancel_safe and _report_holes(ctx, f'{what} in {q} runs inside `async with {pf.nsrc(tb[0].items[0].context_expr)}`, which cancels the queued wait when the timeout expires'):
+                continue
             ctx.need(not cancel_safe, f'{cons}: under a timeout and acquire has a cancellation handler (not analysed)')
             ctx.bad('R5', cons, f'{what} runs inside `async with {pf.nsrc(tb[0].items[0].context_expr)}`: when the timeout expires while the job is still QUEUED its wait is cancelled. {_ABANDONED}',
                     m.path, getattr(node, 'lineno', 0))
@@ -607,15 +1051,85 @@ def _r5_sites(ctx: Ctx, m: pf.Module, mf: 'cf.ModFuncs', exposed, sites: List[Tu
                 if verdict not in ('cancels', 'may-cancel'):
                     continue
                 cons = f'{m.rel}::{qh}::{short(pf.nsrc(rc), 90)}'
-                ctx.need(not cancel_safe, f'{cons}: a waiting function is cancellable and acquire has a cancellation handler (not analysed)')
                 must = all(t in waits for t in tg) and verdict == 'cancels'
+                if cancel_safe and must and _report_holes(ctx, f'`{pf.nsrc(a)}` in {qh} is handed to a caller that may cancel it ({how}), and {waits[tg[0]]}'):
+                    continue
+                ctx.need(not cancel_safe, f'{cons}: a waiting function is cancellable and acquire has a cancellation handler (not analysed)')
                 ctx.need(must, f'{cons}: `{pf.nsrc(a)}` may be cancelled on its own ({how}) and may be waiting for cpu_sem at that moment '
                          f'({may[[t for t in tg if t in may][0]]}); which method the receiver denotes / who cancels the task is not decided statically')
                 ctx.bad('R5', cons, f'`{pf.nsrc(a)}` is handed to a caller that may cancel it ({how}), and {waits[tg[0]]}: a job cancelled that way while it is still QUEUED '
                         f'abandons its wait. {_ABANDONED}', m.path, rc.lineno)
 
 
-def _worker_uses(ctx: Ctx, cancel_safe: bool) -> None:
+def _always_leaves(stmts: List[ast.stmt]) -> bool:
+    if not stmts:
+        return False
+    last = stmts[-1]
+    if isinstance(last, (ast.Return, ast.Raise)):
+        return True
+    if isinstance(last, ast.If):
+        return _always_leaves(last.body) and _always_leaves(last.orelse)
+    return False
+
+
+def _with_site(ctx: Ctx, m: pf.Module, fn: Optional[pf.FuncDef], cons: str, call: ast.Call, item: ast.withitem, stmt: ast.AsyncWith, spec: _AcqSpec, cms: _CMSpec) -> None:
+    """`async with S(w, ...) [as x]:` - the call passes the weight (and only optional arguments the semaphore takes); when this acquisition can GIVE UP waiting (acquire returns
+    without holding anything) the body must run only when the result says granted."""
+    line = call.lineno
+    extra: Dict[str, ast.AST] = {}
+    okc = len(call.args) >= 1 and len(call.args) - 1 <= len(cms.call_extra) and not any(isinstance(a, ast.Starred) for a in call.args)
+    if okc:
+        for prm, a in zip(cms.call_extra, call.args[1:]):
+            extra[prm] = a
+        for k in call.keywords:
+            okc = okc and k.arg is not None and k.arg in cms.call_extra and k.arg not in extra
+            if k.arg is not None:
+                extra[k.arg] = k.value
+    ctx.check(okc, 'R4', cons, 'cpu_sem(...) is not called with exactly the weight (plus optional arguments the semaphore accepts)', m.path, line)
+    if not okc or not spec.conditional:
+        return
+    enabling = {cp for cp, ap in cms.extra_to_acquire.items() if ap in spec.giveup_needs}
+    if spec.giveup_needs and not any(cp in extra and not (isinstance(extra[cp], ast.Constant) and extra[cp].value is None) for cp in enabling):
+        return  # no argument that enables giving up is passed: this acquisition always ends up holding the weight
+    c2 = cons + '::body runs only when granted'
+    gave_up = ('the waiter can give up (acquire then returns without holding anything)')
+    ov = item.optional_vars
+    if ov is None:
+        ctx.bad('R4', c2, f'{gave_up}, but the result is not bound (`async with ... as x`) and the body runs regardless: the job runs without holding its cores - more CPU is in use than the '
+                'worker has (safety)', m.path, line)
+        return
+    ctx.need(isinstance(ov, ast.Name) and cms.yields_flag and fn is not None, f'{c2}: what `as {pf.nsrc(ov)}` binds is not the granted/gave-up result of acquire (not analysed)')
+    x = ov.id  # type: ignore[union-attr]
+    ctx.need(len(pf.assignments(fn).get(x, [])) == 1, f'{c2}: `{x}` is assigned more than once')  # type: ignore[arg-type]
+    body = stmt.body
+    uses = [n for st_ in body for n in ast.walk(st_) if isinstance(n, ast.Name) and n.id == x]
+    if not uses:
+        ctx.bad('R4', c2, f'{gave_up}, but the body never looks at `{x}` and runs regardless: the job runs without holding its cores - more CPU is in use than the worker has (safety)',
+                m.path, line)
+        return
+    first = body[0]
+    ctx.need(isinstance(first, ast.If), f'{c2}: `{x}` is not tested by the first statement of the body (not analysed)')
+    t = first.test  # type: ignore[union-attr]
+    gt = spec.granted_truthy
+    if af.implied_on_edge(t, 'T', x, not gt) and af.implied_on_edge(t, 'F', x, gt):
+        # `if not acquired: ...leave...` then the real body
+        okb = _always_leaves(first.body) and not first.orelse  # type: ignore[union-attr]
+        ctx.check(okb or bool(first.orelse), 'R4', c2, f'{gave_up}; the body tests `{pf.nsrc(t)}` but does not leave (return / raise) in that case, so the job runs without holding its cores - '  # type: ignore[union-attr]
+                  'more CPU is in use than the worker has (safety)', m.path, first.lineno, detail=f'guarded by `{pf.nsrc(t)}`')
+        ctx.need(not first.orelse, f'{c2}: give-up branch with an else part (not analysed)')  # type: ignore[union-attr]
+    elif af.implied_on_edge(t, 'T', x, gt) and af.implied_on_edge(t, 'F', x, not gt):
+        if len(body) == 1 and not first.orelse:  # type: ignore[union-attr]
+            ctx.ok('R4', c2, f'whole body under `if {pf.nsrc(t)}`')
+        elif _always_leaves(first.body) and not first.orelse:  # type: ignore[union-attr]
+            ctx.bad('R4', c2, f'{gave_up}; the body leaves when `{pf.nsrc(t)}` (granted) and carries on when the waiter gave up: the test is inverted - the job runs without holding its cores (safety)',
+                    m.path, first.lineno)
+        else:
+            raise AnalysisError(f'{c2}: statements after `if {pf.nsrc(t)}:` in the body (not analysed)')
+    else:
+        raise AnalysisError(f'{c2}: the first test of the body `{pf.nsrc(t)}` does not decide on `{x}` alone')
+
+
+def _worker_uses(ctx: Ctx, cancel_safe: bool, spec: _AcqSpec, cms: _CMSpec) -> None:
     roots = ['batch/batch/worker'] if ctx.tier != 'thorough' else ['batch/batch']
     files = [f for f in pf.walk_py(roots) if f != F]
     ctx.need(WK in files, f'{WK} not found')
@@ -653,7 +1167,7 @@ def _worker_uses(ctx: Ctx, cancel_safe: bool) -> None:
                 stmt = par.get(item) if item is not None else None
                 cons = f'{rel}::{q}::{pf.nsrc(p)}'
                 if isinstance(item, ast.withitem) and item.context_expr is p and isinstance(stmt, ast.AsyncWith):
-                    ctx.check(len(p.args) == 1 and not p.keywords, 'R4', cons, 'cpu_sem(...) is not called with exactly the weight', m.path, line)
+                    _with_site(ctx, m, fn, cons, p, item, stmt, spec, cms)
                     n_with += 1
                     sites.append((q, stmt))
                 elif isinstance(item, ast.Expr) or (isinstance(item, ast.withitem) and isinstance(stmt, ast.With)):
@@ -692,7 +1206,7 @@ def _worker_uses(ctx: Ctx, cancel_safe: bool) -> None:
                     if isinstance(px, ast.Attribute) and px.value is x and px.attr in ('acquire', 'release') and isinstance(par.get(px), ast.Call) and par[px].func is px:
                         manual.setdefault(id(fn), (fn, q, set()))[2].add(alias)
                     elif isinstance(px, ast.Call) and px.func is x and isinstance(par.get(px), ast.withitem) and isinstance(par.get(par[px]), ast.AsyncWith):
-                        ctx.check(len(px.args) == 1 and not px.keywords, 'R4', f'{rel}::{q}::{pf.nsrc(px)}', 'cpu_sem(...) is not called with exactly the weight', m.path, x.lineno)
+                        _with_site(ctx, m, fn, f'{rel}::{q}::{pf.nsrc(px)}', px, par[px], par[par[px]], spec, cms)  # type: ignore[arg-type]
                         n_with += 1
                     else:
                         raise AnalysisError(f'{rel}::{q}: unrecognised use of the cpu_sem alias `{alias}`: `{pf.nsrc(px) if px is not None else alias}`')
@@ -823,6 +1337,8 @@ def run(ctx: Ctx) -> None:
                    'released exactly once with the same weight on every exit and never without a completed acquire; nobody writes .value / .queue', 7)
     ctx.rule('R5', 'no queued waiter is abandoned: acquire has no cancellation clean-up, so no worker acquisition of cpu_sem is raced against another event / a timeout '
                    '(acquire handed to a function that cancels what it is given, a timeout block around the wait, a waiting function handed to such a canceller)', 3)
+    ctx.rule('R6', 'head invariant restored before any suspension: after every increase of value and every removal from the waiter queue (in any method, on any path) the wake loop '
+                   'runs before the coroutine suspends / the method returns, and a waiter removes its own entry only while it is still queued (not yet granted)', 2)
     ctx.assume('asyncio runs one coroutine at a time and switches only at await; asyncio.Event.set wakes every waiter of that event')
     ctx.assume('requested weights do not exceed the capacity (quantifier of the property)')
     m = pf.load(F)
@@ -830,10 +1346,25 @@ def run(ctx: Ctx) -> None:
     cls = m.cls(CLS)
     guards = af.guarded_decrements(ctx, m, cls, 'R1', VAL, [Q])
     _r2_fifo(ctx, m, cls)
-    layout = _acquire(ctx, m, cls, guards)
+    # R6 is decided before the shape-specific rules (a liveness hole is reported even when acquire's new shape makes R3/R4 decline); when R6 itself cannot
+    # recognise the wake loop, the rules that own that shape (R3) get the first word and R6's objection is raised afterwards
+    deferred: Optional[AnalysisError] = None
+    holes: List[_Hole] = []
+    try:
+        holes = _r6_liveness(ctx, m, cls)
+    except AnalysisError as e:
+        deferred = e
+    layout, spec = _acquire(ctx, m, cls, guards)
     _release(ctx, m, cls, guards, layout)
-    _ctx_manager(ctx, m)
+    if deferred is not None:
+        raise deferred
+    cms = _ctx_manager(ctx, m, spec)
     cancel_safe = _cancel_info(ctx, m, cls)
     _r5_control(ctx)
-    _worker_uses(ctx, cancel_safe)
+    _HOLES[:] = holes
+    _worker_uses(ctx, cancel_safe, spec, cms)
+    for h in holes:
+        if not h.reported:
+            ctx.ok('R6', h.cons, 'the removal leaves the new head unserved, but it is reached only when a queued wait is cancelled on its own, and R5 shows that no acquisition of cpu_sem can be '
+                   '(cancellation of the whole worker at shutdown is outside the property)')
     ctx.unit('functions', 7)
